@@ -14,7 +14,7 @@ from .. import sp
 ID = "C09"
 META = {
     "technique": "runtime monitoring: differential monitor of the duplicate-wrapper structure (position, key, previous block identity, complete inner block, live-key index) against a source-order model",
-    "level_text": "All key assignments for documents of up to n items over colliding entry/string/field-key pools are enumerated, plus random grammar derivations over the same pools; after Splitter.split and parse_string the block count, the live first occurrence, every duplicate-key wrapper (key, previous_block identity, complete duplicate) and every duplicate-field wrapper (all occurrences in order, exact duplicate_keys, key not live) are compared with the expectation computed from the source order. Every third case is also parsed with a shipped field-restructuring middleware appended (NormalizeFieldKeys, the two field sorters, a two-element stack; both in-place modes): the wrapped entries of duplicate wrappers must stay complete and in source order.",
+    "level_text": "All key assignments for documents of up to n items over colliding entry/string/field-key pools are enumerated, plus random grammar derivations over the same pools; after Splitter.split and parse_string the block count, the live first occurrence, every duplicate-key wrapper (key, previous_block identity, complete duplicate) and every duplicate-field wrapper (all occurrences in order, exact duplicate_keys, key not live) are compared with the expectation computed from the source order. Every third case is also parsed with a shipped field-restructuring middleware appended (NormalizeFieldKeys, the two field sorters, a two-element stack; both in-place modes): the wrapped entries of duplicate wrappers must stay complete and in source order. Every third case also parses the first piece with a stack of ONE shipped middleware (nine, both in-place modes) and the second piece into the library that call returned; every third enumerated field value is a bare reference to one of the colliding @string keys.",
     "level_note": "expected structure is derived from the independent recogniser's item list",
 }
 RULE = ("case = document whose entry keys, string keys and field keys come from small pools; all assignments for <= n templated items "
